@@ -376,7 +376,7 @@ class Template:
                     not os.path.exists(path)
                     or os.stat(path)[stat.ST_MTIME] < filemtime
                 ):
-                    data = util.read_file(filename)
+                    data = self._read_source(filename)
                     with _drop_expression_warnings():
                         _compile_module_file(
                             self, data, filename, path, self.module_writer
@@ -389,7 +389,7 @@ class Template:
                     or getattr(module, "_template_filename", filename)
                     != filename
                 ):
-                    data = util.read_file(filename)
+                    data = self._read_source(filename)
                     with _drop_expression_warnings():
                         _compile_module_file(
                             self, data, filename, path, self.module_writer
@@ -400,12 +400,19 @@ class Template:
         else:
             # template filename and no module directory, compile code
             # in memory
-            data = util.read_file(filename)
+            data = self._read_source(filename)
             code, module = _compile_text(self, data, filename)
             self._source = None
             self._code = code
             ModuleInfo(module, None, self, filename, code, None, None)
         return module
+
+    def _read_source(self, filename):
+        # the time recorded in the module must not be later than the moment
+        # its source was read: a modification made while the template is
+        # being compiled would otherwise look older than the module
+        self._source_time = codegen.compile_time()
+        return util.read_file(filename)
 
     @property
     def source(self):
@@ -676,6 +683,7 @@ def _compile(template, text, filename, generate_magic_comment):
         strict_undefined=template.strict_undefined,
         enable_loop=template.enable_loop,
         reserved_names=template.reserved_names,
+        modified_time=getattr(template, "_source_time", None),
     )
     return source, lexer
 
